@@ -865,6 +865,13 @@ func (c *evalCtx) call(x *SExpr) (*Val, error) {
 		}
 		dom, _, _, ks, _ := e.mapComps(m)
 		return bo(sAnd("(not (= "+args[0].T+" 0))", sSel(sSel(e.get(c.cur, dom, "(Array Int (Array "+ks+" Bool))"), args[0].T), args[1].T)))
+	case "indom":
+		m, ok := args[0].GoT.Underlying().(*types.Map)
+		if !ok {
+			return nil, fmt.Errorf("indom() needs a map")
+		}
+		dom, _, _, ks, _ := e.mapComps(m)
+		return bo(sSel(sSel(e.get(c.cur, dom, "(Array Int (Array "+ks+" Bool))"), args[0].T), args[1].T))
 	case "allocated":
 		return bo("(and (< 0 " + args[0].T + ") (< " + args[0].T + " " + e.next(c.cur) + "))")
 	case "fresh":
@@ -997,6 +1004,10 @@ func (c *evalCtx) call(x *SExpr) (*Val, error) {
 			return nil, fmt.Errorf("unbound:type %s", x.Args[0].Name)
 		}
 		return &Val{T: args[1].T, S: e.sortOf(t), GoT: t}, nil
+	case "owned":
+		// owned(x): the byte slice x is nil or its array belongs to the engine
+		t := "(s-arr " + args[0].T + ")"
+		return bo(sOr("(= "+t+" 0)", "(= "+sSel(e.get(c.cur, "Owner", "(Array Int Int)"), t)+" 1)"))
 	case "owner":
 		t := args[0].T
 		if args[0].S == "Slice" {
